@@ -317,6 +317,19 @@ impl Memory {
     #[must_use]
     pub fn all_values(self) -> Vec<RuntimeBoxedVal> {
         let mut values = Vec::new();
+        #[cfg(smlxl_storage_layout_extractor_verif)]
+        if crate::verif::ordering_on() {
+            let constant: Vec<(usize, Vec<MemStore>)> = self.constant_offsets.into_iter().collect();
+            for (_, more) in crate::verif::order("memory.constant_offsets", constant, |(k, _)| *k) {
+                values.extend(more.into_iter().map(|s| s.data));
+            }
+            let symbolic: Vec<(RuntimeBoxedVal, Vec<MemStore>)> = self.symbolic_offsets.into_iter().collect();
+            for (key, more) in crate::verif::order("memory.symbolic_offsets", symbolic, |(k, _)| format!("{k}")) {
+                values.push(key);
+                values.extend(more.into_iter().map(|s| s.data));
+            }
+            return values;
+        }
         self.constant_offsets
             .into_values()
             .for_each(|more| values.extend(more.into_iter().map(|s| s.data)));
